@@ -172,6 +172,19 @@ Spec == Init /\ [][Next]_vars
 (* C01 oracle sanity: the denotation is a function onto the output (each position written exactly once, all in range) *)
 WellDefinedInv == WellDefined(case)
 
+(* C14: the iterations of an indexed update partition the update tensor evenly: every update element is consumed by
+   the same number of iterations (the product of the lengths of the loop axes it lacks), every iteration consumes exactly
+   one update element and one full coordinate vector, and the target sub-tensor it addresses is a slice of the output *)
+UpdIdx(c) == Len(c.ins)
+C14_ContribPartition ==
+  case.fam = "update_at" =>
+    LET gs == Groups(case)
+        used == [g \in DOMAIN gs |-> gs[g].ins[UpdIdx(case)]]
+        n == NumEl(case.ins[UpdIdx(case)], case.L)
+    IN /\ \A g \in DOMAIN gs : Len(used[g]) = 1 /\ Len(gs[g].ins[2]) = Len(BrShape(P1(case.ins[1], case.L)))
+       /\ \A p \in 0..(n - 1) : Cardinality({g \in DOMAIN gs : used[g][1] = p}) * n = Len(gs)
+       /\ \A g \in DOMAIN gs : gs[g].ins[1] = gs[g].outs[1]
+
 (* export: description tokens, shapes, bracket shapes/names, groups *)
 PartInfo(t, L) == [shape |-> Shape(t, L), brshape |-> BrShape(P1(t, L)), brnames |-> BrNames(P1(t, L))]
 CaseJson(c) ==
